@@ -1,7 +1,9 @@
 /-
   C09: the anchoring window (operationapplier.go: verifyAnchoringTimeRange / getAnchorUntil,
-  operationparser/recover.go: getAnchorUntil). `Int` arithmetic; Go's int64 wrap-around is
-  outside the property (side conditions are explicit in the generators: all values < 2^62).
+  operationparser/recover.go: getAnchorUntil). `Int` arithmetic: since the D23 repair the applier
+  compares the signed bounds, the unsigned anchoring time and the default expiry as the integers
+  they stand for, and the parser hands the time validator the greatest int64 when the default
+  expiry lies beyond it (`capInt64`).
 -/
 import Sidetree.Protocol
 import Sidetree.Expected
@@ -24,9 +26,14 @@ def effective (cfg : Protocol) (frm untl t : Int) : Bool :=
   else if anchorUntil cfg Expected.anchorUntilParamApplier frm untl < t then false
   else true
 
-/-- the pair the parser hands to the time validator -/
+def maxInt64 : Int := 9223372036854775807
+
+/-- the greatest int64 for anything beyond it -/
+def capInt64 (x : Int) : Int := if x > maxInt64 then maxInt64 else x
+
+/-- the pair the parser hands to the time validator (int64 values) -/
 def validatorPair (cfg : Protocol) (frm untl : Int) : Int × Int :=
-  (frm, anchorUntil cfg Expected.anchorUntilParamParser frm untl)
+  (frm, capInt64 (anchorUntil cfg Expected.anchorUntilParamParser frm untl))
 
 inductive OpType | update | recover | deactivate
 deriving DecidableEq, Repr
